@@ -1,0 +1,291 @@
+//! Verification hooks (cargo feature `verif`, off by default)
+//!
+//! This module is only compiled when the feature `verif` is enabled. It provides:
+//!  - `RwLock`: an API-compatible wrapper around `parking_lot::RwLock` which reports every lock operation
+//!    to an installable [`LockMonitor`]. Without a monitor every operation is passed through unchanged.
+//!  - read-only accessors for internal state which is not fully observable through the public API.
+#![allow(missing_docs)]
+
+use std::ops::{Deref, DerefMut};
+use std::panic::Location;
+use std::sync::Arc;
+use std::sync::atomic::{AtomicBool, AtomicU64, Ordering};
+use std::time::Duration;
+
+use crate::{ArxmlFile, AutosarModel, Element, WeakElement};
+
+/// lock mode of a lock operation
+#[derive(Clone, Copy, Debug, PartialEq, Eq, Hash)]
+pub enum Mode {
+    Read,
+    Write,
+}
+
+/// kind of the acquisition: blocking, try, or try with timeout
+#[derive(Clone, Copy, Debug, PartialEq, Eq, Hash)]
+pub enum Kind {
+    Block,
+    Try,
+    Timed(Duration),
+}
+
+/// decision of the monitor about a lock acquisition
+#[derive(Clone, Copy, Debug, PartialEq, Eq)]
+pub enum Decision {
+    /// perform the original parking_lot operation
+    Passthrough,
+    /// the monitor has determined that the lock is free: acquire it with a try operation
+    Grant,
+    /// the acquisition fails (only meaningful for try / timed operations)
+    Deny,
+}
+
+/// A monitor which observes (and optionally decides) all lock operations of the crate
+pub trait LockMonitor: Send + Sync {
+    /// called before the lock operation is attempted
+    fn acquire(
+        &self,
+        lock: u64,
+        class: &'static str,
+        mode: Mode,
+        kind: Kind,
+        site: &'static Location<'static>,
+    ) -> Decision;
+    /// called after the lock operation has completed; ok is true if the lock is now held
+    fn acquired(&self, lock: u64, mode: Mode, ok: bool);
+    /// called after a guard has been dropped and the underlying lock was released
+    fn release(&self, lock: u64, mode: Mode);
+    /// called when a `Grant` decision could not be performed because the underlying lock was not free
+    fn mismatch(&self, _lock: u64, _mode: Mode) {}
+}
+
+static ENABLED: AtomicBool = AtomicBool::new(false);
+static MONITOR: parking_lot::RwLock<Option<Arc<dyn LockMonitor>>> = parking_lot::RwLock::new(None);
+static NEXT_ID: AtomicU64 = AtomicU64::new(1);
+
+/// install or remove the lock monitor
+pub fn set_monitor(monitor: Option<Arc<dyn LockMonitor>>) {
+    let mut slot = MONITOR.write();
+    ENABLED.store(monitor.is_some(), Ordering::SeqCst);
+    *slot = monitor;
+}
+
+fn monitor() -> Option<Arc<dyn LockMonitor>> {
+    if ENABLED.load(Ordering::Relaxed) {
+        MONITOR.read().clone()
+    } else {
+        None
+    }
+}
+
+pub struct RwLock<T> {
+    id: u64,
+    inner: parking_lot::RwLock<T>,
+}
+
+pub struct RwLockReadGuard<'a, T> {
+    id: u64,
+    inner: Option<parking_lot::RwLockReadGuard<'a, T>>,
+}
+
+pub struct RwLockWriteGuard<'a, T> {
+    id: u64,
+    inner: Option<parking_lot::RwLockWriteGuard<'a, T>>,
+}
+
+impl<T> RwLock<T> {
+    pub fn new(value: T) -> Self {
+        Self {
+            id: NEXT_ID.fetch_add(1, Ordering::Relaxed),
+            inner: parking_lot::RwLock::new(value),
+        }
+    }
+
+    pub fn verif_id(&self) -> u64 {
+        self.id
+    }
+
+    fn class() -> &'static str {
+        std::any::type_name::<T>()
+    }
+
+    fn read_passthrough(&self, kind: Kind) -> Option<parking_lot::RwLockReadGuard<'_, T>> {
+        match kind {
+            Kind::Block => Some(self.inner.read()),
+            Kind::Try => self.inner.try_read(),
+            Kind::Timed(duration) => self.inner.try_read_for(duration),
+        }
+    }
+
+    fn write_passthrough(&self, kind: Kind) -> Option<parking_lot::RwLockWriteGuard<'_, T>> {
+        match kind {
+            Kind::Block => Some(self.inner.write()),
+            Kind::Try => self.inner.try_write(),
+            Kind::Timed(duration) => self.inner.try_write_for(duration),
+        }
+    }
+
+    fn do_read(&self, kind: Kind, site: &'static Location<'static>) -> Option<RwLockReadGuard<'_, T>> {
+        let mon = monitor();
+        let decision = mon.as_ref().map_or(Decision::Passthrough, |m| {
+            m.acquire(self.id, Self::class(), Mode::Read, kind, site)
+        });
+        let guard = match decision {
+            Decision::Deny if kind != Kind::Block => None,
+            Decision::Grant => {
+                if let Some(guard) = self.inner.try_read() {
+                    Some(guard)
+                } else {
+                    if let Some(m) = &mon {
+                        m.mismatch(self.id, Mode::Read);
+                    }
+                    self.read_passthrough(kind)
+                }
+            }
+            _ => self.read_passthrough(kind),
+        };
+        if let Some(m) = &mon {
+            m.acquired(self.id, Mode::Read, guard.is_some());
+        }
+        guard.map(|g| RwLockReadGuard {
+            id: self.id,
+            inner: Some(g),
+        })
+    }
+
+    fn do_write(&self, kind: Kind, site: &'static Location<'static>) -> Option<RwLockWriteGuard<'_, T>> {
+        let mon = monitor();
+        let decision = mon.as_ref().map_or(Decision::Passthrough, |m| {
+            m.acquire(self.id, Self::class(), Mode::Write, kind, site)
+        });
+        let guard = match decision {
+            Decision::Deny if kind != Kind::Block => None,
+            Decision::Grant => {
+                if let Some(guard) = self.inner.try_write() {
+                    Some(guard)
+                } else {
+                    if let Some(m) = &mon {
+                        m.mismatch(self.id, Mode::Write);
+                    }
+                    self.write_passthrough(kind)
+                }
+            }
+            _ => self.write_passthrough(kind),
+        };
+        if let Some(m) = &mon {
+            m.acquired(self.id, Mode::Write, guard.is_some());
+        }
+        guard.map(|g| RwLockWriteGuard {
+            id: self.id,
+            inner: Some(g),
+        })
+    }
+
+    #[track_caller]
+    pub fn read(&self) -> RwLockReadGuard<'_, T> {
+        let site = Location::caller();
+        self.do_read(Kind::Block, site).unwrap()
+    }
+
+    #[track_caller]
+    pub fn write(&self) -> RwLockWriteGuard<'_, T> {
+        let site = Location::caller();
+        self.do_write(Kind::Block, site).unwrap()
+    }
+
+    #[track_caller]
+    pub fn try_read(&self) -> Option<RwLockReadGuard<'_, T>> {
+        let site = Location::caller();
+        self.do_read(Kind::Try, site)
+    }
+
+    #[track_caller]
+    pub fn try_write(&self) -> Option<RwLockWriteGuard<'_, T>> {
+        let site = Location::caller();
+        self.do_write(Kind::Try, site)
+    }
+
+    #[track_caller]
+    pub fn try_read_for(&self, duration: Duration) -> Option<RwLockReadGuard<'_, T>> {
+        let site = Location::caller();
+        self.do_read(Kind::Timed(duration), site)
+    }
+
+    #[track_caller]
+    pub fn try_write_for(&self, duration: Duration) -> Option<RwLockWriteGuard<'_, T>> {
+        let site = Location::caller();
+        self.do_write(Kind::Timed(duration), site)
+    }
+}
+
+impl<T> Deref for RwLockReadGuard<'_, T> {
+    type Target = T;
+    fn deref(&self) -> &T {
+        self.inner.as_ref().unwrap()
+    }
+}
+
+impl<T> Deref for RwLockWriteGuard<'_, T> {
+    type Target = T;
+    fn deref(&self) -> &T {
+        self.inner.as_ref().unwrap()
+    }
+}
+
+impl<T> DerefMut for RwLockWriteGuard<'_, T> {
+    fn deref_mut(&mut self) -> &mut T {
+        self.inner.as_mut().unwrap()
+    }
+}
+
+impl<T> Drop for RwLockReadGuard<'_, T> {
+    fn drop(&mut self) {
+        // release the underlying lock first, then report
+        drop(self.inner.take());
+        if let Some(m) = monitor() {
+            m.release(self.id, Mode::Read);
+        }
+    }
+}
+
+impl<T> Drop for RwLockWriteGuard<'_, T> {
+    fn drop(&mut self) {
+        drop(self.inner.take());
+        if let Some(m) = monitor() {
+            m.release(self.id, Mode::Write);
+        }
+    }
+}
+
+impl AutosarModel {
+    /// sorted copy of the reverse reference map, including keys whose lists are empty or only hold dead entries
+    pub fn verif_reference_origins(&self) -> Vec<(String, Vec<WeakElement>)> {
+        let model = self.0.read();
+        let mut result: Vec<(String, Vec<WeakElement>)> = model
+            .reference_origins
+            .iter()
+            .map(|(key, list)| (key.clone(), list.clone()))
+            .collect();
+        result.sort_by(|a, b| a.0.cmp(&b.0));
+        result
+    }
+
+    /// id of the lock that protects this model
+    pub fn verif_lock_id(&self) -> u64 {
+        self.0.verif_id()
+    }
+}
+
+impl ArxmlFile {
+    /// id of the lock that protects this file
+    pub fn verif_lock_id(&self) -> u64 {
+        self.0.verif_id()
+    }
+}
+
+impl Element {
+    /// id of the lock that protects this element
+    pub fn verif_lock_id(&self) -> u64 {
+        self.0.verif_id()
+    }
+}
